@@ -19,8 +19,13 @@ def vertexBytes (dim : Nat) (m : Meta) : Nat := 16 + 4 * dim + mdBytes m
 def mergeMd (new old : Meta) : Meta :=
   new ++ old.filter fun kv => !(new.any fun nk => nk.1 == kv.1)
 
+/-- `Metadata.Validate`: what the snapshot format's length fields can hold (entry count and value
+length in 16 bits, key length in 8) -/
+def mdFits (m : Meta) : Bool :=
+  decide (m.length ≤ 65535) && m.all fun kv => decide (kv.1.utf8ByteSize ≤ 255) && decide (kv.2.utf8ByteSize ≤ 65535)
+
 inductive Outcome where
-  | ok | exists | notFound
+  | ok | exists | notFound | mdTooLarge
 deriving DecidableEq, Repr
 
 structure BatchItem where
@@ -61,8 +66,9 @@ section
 variable (Pmin Pmax : PQImpl) (dist : VecRef → VecRef → Score) (cfg : Cfg) (dim : Nat)
 variable (pick : List ItemId → Option ItemId)
 
-/-- `Hnsw.Insert` with `storeVertex`'s counter updates -/
+/-- `Hnsw.Insert` (metadata validated first) with `storeVertex`'s counter updates -/
 def pInsert (p : PState) (id : ItemId) (vec : VecRef) (md : Meta) (level : Nat) : PState × Outcome :=
+  if mdFits md = false then (p, .mdTooLarge) else
   match insert Pmin Pmax dist cfg p.idx id vec md level with
   | .ok s' => (⟨s', p.len + 1, p.bytes + (vertexBytes dim md).toUInt64⟩, .ok)
   | .error _ => (p, .exists)
@@ -77,13 +83,14 @@ def pRemove (p : PState) (id : ItemId) : PState × Outcome :=
       (⟨s', p.len + ~~~(0 : UInt64), p.bytes + ~~~((vertexBytes dim (p.idx.mdOf v)).toUInt64 - 1)⟩, .ok)
     | .error _ => (p, .notFound)
 
-/-- `updateValue`: look up, remove, merge metadata, re-insert at the old level -/
+/-- `updateValue`: look up, merge metadata and validate it, remove, re-insert at the old level -/
 def pUpdate (p : PState) (id : ItemId) (vec : VecRef) (md : Meta) : PState × Outcome :=
   match p.idx.live id with
   | none => (p, .notFound)
   | some v =>
     let oldMd := p.idx.mdOf v
     let oldLevel := p.idx.levelOf v
+    if mdFits (mergeMd md oldMd) = false then (p, .mdTooLarge) else
     match pRemove Pmin Pmax dist cfg dim pick p id with
     | (p1, .ok) => pInsert Pmin Pmax dist cfg dim p1 id vec (mergeMd md oldMd) oldLevel
     | (p1, o) => (p1, o)
@@ -136,6 +143,7 @@ def erase (s : Spec) (id : ItemId) : Spec :=
 
 /-- the very first item of an empty index is stored at level 0 whatever level was drawn -/
 def insert (s : Spec) (id : ItemId) (vec : VecRef) (md : Meta) (level : Nat) : Spec × Outcome :=
+  if mdFits md = false then (s, .mdTooLarge) else
   match s.get id with
   | some _ => (s, .exists)
   | none => (s.set id ⟨vec, md, if s.ids.isEmpty then 0 else level⟩, .ok)
@@ -148,7 +156,9 @@ def delete (s : Spec) (id : ItemId) : Spec × Outcome :=
 def update (s : Spec) (id : ItemId) (vec : VecRef) (md : Meta) : Spec × Outcome :=
   match s.get id with
   | none => (s, .notFound)
-  | some old => (s.erase id).insert id vec (mergeMd md old.md) old.level
+  | some old =>
+    if mdFits (mergeMd md old.md) = false then (s, .mdTooLarge)
+    else (s.erase id).insert id vec (mergeMd md old.md) old.level
 
 def batchFold (f : Spec → BatchItem → Spec × Outcome) (s : Spec) (items : List BatchItem) :
     Spec × List (ItemId × Outcome) :=
